@@ -260,6 +260,53 @@ fn table_span(bytes: &[u8]) -> Option<(usize, usize)> {
 	Some((17, (size - 1) / 3))
 }
 
+/// The string fields of the Game Start block (name tags, netplay names, connect codes, user ids, match ids; offsets from
+/// the TLA+ layout) filled with contents a decoder may choke on: half-width katakana (1 byte -> 3 bytes of UTF-8) in
+/// runs of several lengths, lead bytes without a trail byte, bytes that are never valid, full fields without a NUL.
+fn string_fill_mutants(db: &LayoutDb, base: &[u8]) -> Vec<(String, Vec<u8>)> {
+	let mut out = vec![];
+	let (t0, n) = match table_span(base) {
+		Some(x) => x,
+		None => return out,
+	};
+	let cmd = t0 + 3 * n; // the Game Start command byte
+	if cmd >= base.len() || base[cmd] != 0x36 {
+		return out;
+	}
+	let size = (0..n).find(|i| base[t0 + 3 * i] == 0x36).map(|i| u16::from_be_bytes([base[t0 + 3 * i + 1], base[t0 + 3 * i + 2]]) as usize).unwrap_or(0);
+	let mut fields: Vec<&crate::layout::SField> = db.blocks.start_global.iter().collect();
+	for p in &db.blocks.start_player {
+		fields.extend(p.iter());
+	}
+	for f in fields {
+		if !(f.k.starts_with("sjis") || f.k.starts_with("utf8z")) || f.off - 1 + f.w > size || cmd + f.off + f.w > base.len() {
+			continue;
+		}
+		let w = f.w;
+		let pats: Vec<(&str, Vec<u8>)> = vec![
+			("kana_full", vec![0xB1; w]),
+			("kana2", [vec![0xB1, 0xB1], vec![0; w - 2]].concat()),
+			("kana3a", [vec![0xB1, 0xB1, 0xB1, 0x41], vec![0; w - 4]].concat()),
+			("kana_half", [vec![0xDF; w / 2], vec![0; w - w / 2]].concat()),
+			("kana_but_last", [vec![0xA1; w - 1], vec![0]].concat()),
+			("lead_at_end", [vec![0x41; w - 1], vec![0x81]].concat()),
+			("lead_then_nul", [vec![0x88, 0x00], vec![0x41; w - 2]].concat()),
+			("pairs_full", (0..w).map(|i| if i % 2 == 0 { 0x81 } else { 0x40 }).collect()),
+			("never_valid", vec![0xFF; w]),
+			("x80", vec![0x80; w]),
+			("ascii_full", vec![0x7E; w]),
+			("utf8_cont", vec![0xBF; w]),
+			("four_byte", (0..w).map(|i| [0xF0u8, 0x9F, 0x98, 0x80][i % 4]).collect()),
+		];
+		for (pn, pat) in pats {
+			let mut b = base.to_vec();
+			b[cmd + f.off..cmd + f.off + w].copy_from_slice(&pat);
+			out.push((format!("start_string:{}={}", f.n, pn), b));
+		}
+	}
+	out
+}
+
 fn mutants_of(base: &[u8], r: &mut Rng, nrandom: usize) -> Vec<(String, Vec<u8>)> {
 	let mut out: Vec<(String, Vec<u8>)> = vec![];
 	let with_raw_len = |v: u32| {
@@ -477,7 +524,11 @@ pub fn cmd_fuzz(a: &Args) {
 					if with_faults && base.len() < 200_000 {
 						check_faults(base, name, &sink);
 					}
-					for (what, m) in mutants_of(base, &mut r, nrandom) {
+					let mut muts = mutants_of(base, &mut r, nrandom);
+					if i % 3 == 0 {
+						muts.extend(string_fill_mutants(&db, base));
+					}
+					for (what, m) in muts {
 						if hangs.load(std::sync::atomic::Ordering::SeqCst) >= 3 {
 							return;
 						}
